@@ -75,12 +75,64 @@ type c12Srv struct {
 // c12NewPipe returns the client side of a fresh connection whose peer is a running scripted server.
 func c12NewPipe(comp bool, method compress.Method, serverRev int) (net.Conn, *c12Srv) {
 	cli, srv := net.Pipe()
+	return cli, c12Serve(srv, comp, method, serverRev)
+}
+
+// c12Serve starts the scripted server on its end of a connection
+func c12Serve(srv net.Conn, comp bool, method compress.Method, serverRev int) *c12Srv {
 	s := &c12Srv{conn: srv, r: proto.NewReader(srv), comp: comp, cw: compress.NewWriter(compress.LevelZero, method), rev: serverRev}
 	reqs := make(chan c12Req, 16)
 	s.done.Add(2)
 	go s.reader(reqs)
 	go s.writer(reqs)
-	return cli, s
+	return s
+}
+
+// c12Listener: the scripted server behind a loopback TCP listener, for options that carry the standard library's own
+// *net.Dialer (an object the caller owns and every connection made from these options shares)
+type c12Listener struct {
+	ln   net.Listener
+	mu   sync.Mutex
+	srvs []*c12Srv
+	done sync.WaitGroup
+}
+
+func c12Listen(comp bool, method compress.Method) (*c12Listener, error) {
+	ln, err := net.Listen("tcp", "127.0.0.1:0")
+	if err != nil {
+		return nil, err
+	}
+	l := &c12Listener{ln: ln}
+	l.done.Add(1)
+	go func() {
+		defer l.done.Done()
+		for {
+			conn, err := ln.Accept()
+			if err != nil {
+				return
+			}
+			s := c12Serve(conn, comp, method, proto.Version)
+			l.mu.Lock()
+			l.srvs = append(l.srvs, s)
+			l.mu.Unlock()
+		}
+	}()
+	return l, nil
+}
+
+func (l *c12Listener) WaitAll() (n int, malformed string) {
+	_ = l.ln.Close()
+	l.done.Wait()
+	l.mu.Lock()
+	srvs := append([]*c12Srv(nil), l.srvs...)
+	l.mu.Unlock()
+	for _, s := range srvs {
+		s.Wait()
+		if s.malformed != "" && malformed == "" {
+			malformed = s.malformed
+		}
+	}
+	return len(srvs), malformed
 }
 
 // Wait closes the server side and waits for both goroutines.
